@@ -277,9 +277,16 @@ def _explore_chunk(idx):
     try:
         res = core.explore(out, cfg)
     except Exception as e:  # noqa
+        # the engine could not even load the file: if node itself rejects it, the compiler emitted invalid JavaScript (a violation, replayed
+        # like any other: native go runs the program, node does not)
+        chk = core.run(['node', '--check', out], check=False)
         for c in ch:
             rep.cases += 1
-            rep.inconclusive.append({'tag': c.tag, 'reason': 'engine error: ' + str(e)[-400:]})
+            if chk.returncode != 0 and len(ch) == 1:
+                msg = [ln for ln in chk.stderr.split('\n') if 'Error' in ln]
+                rep.violations.append({'tag': c.tag, 'why': 'the emitted file is not syntactically valid JavaScript: ' + (msg[0] if msg else chk.stderr[-200:]), 'model': {}, 'values': None, 'case': c.tag, 'term': {'kind': 'syntax'}})
+            else:
+                rep.inconclusive.append({'tag': c.tag, 'reason': 'engine error: ' + str(e)[-400:]})
         return rep
     rep.compile_s = t1 - t0
     rep.explore_s = time.time() - t1
